@@ -68,7 +68,7 @@ def _alphabet(v, d, model):
         # a single flag, by keyword or by position (the same VALUE in another parameter's slot)
         ops.append({"op": "unfold_search", "s": srch, "u": True})
         ops.append({"op": "unfold_search", "s": srch, "x": True})
-        ops.append({"op": "unfold_search", "s": srch, "u": True, "positional": 1})
+        ops.append({"op": "unfold_search", "s": srch, "u": True, "positional": "first"})
         ops.append({"op": "unfold_search", "s": srch, "u": False, "x": True})
         ops.append({"op": "simple_typing", "s": srch.split("?")[0]}) if "**" not in srch and "," not in srch else None
         ops.append({"op": "find_list", "l": L, "s": srch, "m": "find"})
